@@ -49,8 +49,8 @@ SWAP = {
 
 
 def plan(tier, seed):
-    n = 50 if tier == "quick" else 1200
-    return [{"name": "swap-%d" % p, "n": n} for p in range(10 if tier == "quick" else 16)]
+    n = 220 if tier == "quick" else 4000
+    return [{"name": "swap-%d" % p, "n": n} for p in range(16)]
 
 
 def _get(v, i):
